@@ -67,6 +67,12 @@ class C15(XsProp):
                      '[ 255 ] >bitstr open-bitstr 3 bits close-bitstr dup |x.| bitstr-append swap bitstr-not', '[ 170 85 ] >bitstr open-bitstr 4 bits drop 8 bits close-bitstr 0 3 uint! swap bitstr-append', '[ 1 2 ] foreach I loop 3 0 do I loop', ': r local n n 0 > if n 1 - r then n ; 3 r', ': f local a a ^hex local a a ; 9 f print', '3 0 do I 1 == if break then I loop 7']:
             for (m, rec) in MODES:
                 cs.append(mode_case(hexsrc(prog), m, rec, '3000 - -'))
+        # a source REJECTED at build time after earlier sources left values, variables and definitions behind: all six drives must leave
+        # the same state (family added after round 11: the unwinding of a rejected source differed between eval and compile)
+        for setup in [('1 2 3',), ('"s" 5', ': f 1 ;'), ('7 var keep 9',), ('[ 1 2 ]', '3 0 do I loop')]:
+            for bad in ['nosuch', '4 5 nosuch', '1 if', ']', '#( 1 0 / #)', '#( foo #) 8', ': g 2 ; zz', 'drop drop nosuch', '1 var w 0x', '#( drop #)']:
+                for (m, rec) in MODES:
+                    cs.append(mode_case(hexsrc(bad), m, rec, '3000 - -', setup))
         # views built at run time that nobody else holds (the reverse log holds a second reference when recording): what a later
         # open-bitstr sees (offset, remain, find) must not depend on it
         for view in ['[ 0 17 34 51 68 ] >bitstr open-bitstr 8 bits drop 16 bits close-bitstr', '"0011223344" hex>bitstr open-bitstr 16 bits drop 8 bits close-bitstr',
